@@ -225,3 +225,250 @@ def replay_concrete(sym, wrap, or0, instr, a, b):
     A, B = z3.BitVecVal(a, 32), z3.BitVecVal(b, 32)
     w = z3.simplify(wasm_sem(instr, A, B)[0]).as_signed_long()
     return js != w
+
+
+# ------------------------------------------------------------------------------------------------
+# Part 2: runtime library.  libsam.wat (as embedded in the module the real compiler emits) is executed
+# symbolically (E-W) and compared with what the TypeScript prolog computes.
+
+TS_PROLOG_EXPECT = {
+    "__Str$fromInt": "[1, String(v) as unknown as number]",
+    "__Str$toInt": "parseInt(v as unknown as string, 10)",
+    "__Str$concat": "[1, a + b]",
+}
+
+
+def ts_prolog_bodies(ts_text):
+    out = {}
+    for ln in ts_text.split("\n"):
+        m = re.match(r"^const (\S+) = \(.*?\): [^=]*=> (.*);$", ln)
+        if m:
+            out[m.group(1)] = m.group(2).strip()
+    return out
+
+
+def run_runtime(res, tier, sc, drv):
+    import json
+    import os
+    import time
+    from vlib import wat, irsym
+    from vlib.irsym import Int, World, BV
+    od = os.path.join(sc.root, "et", "c04rt")
+    prog = os.path.join(sc.root, "c04rt.sam")
+    open(prog, "w").write('class Main { function main(): unit = { let v = Vec.of<int>("1".toInt()); let _ = v.push(2); '
+                          'Process.println(Str.fromInt(v.get(0)) :: "x") } }\n')
+    p = drv.call(["dump", od, "11111", "RT=" + prog], check=False)
+    if '"status":"ok"' not in p.stdout:
+        raise Inconclusive("could not compile the runtime probe program: %s" % p.stdout[:300])
+    mod = wat.Module(open(os.path.join(od, "all.wat")).read())
+    bodies = ts_prolog_bodies(open(os.path.join(od, "all.ts")).read())
+    for fn, expect in TS_PROLOG_EXPECT.items():
+        if bodies.get(fn) != expect:
+            raise Inconclusive("the TypeScript prolog of %s changed (%r): the JS model of checks/c04.py no longer describes it" % (fn, bodies.get(fn)))
+    bounds = {"forks": 40, "steps": 20000, "paths": 400, "seconds": 120 if tier == "quick" else 900}
+    obligations = discharged = 0
+    details = {}
+    t0 = time.time()
+
+    def solve(assertions, to=60):
+        s = z3.Solver()
+        s.set("timeout", to * 1000)
+        s.add(*assertions)
+        r = s.check()
+        return ("sat", s.model()) if r == z3.sat else (("unsat", None) if r == z3.unsat else ("unknown", None))
+
+    # ---- Str.fromInt(v) == String(v): canonical decimal, for all i32
+    world = World()
+    ex = wat.WExec(mod, world, bounds)
+    ex.deadline = time.time() + bounds["seconds"]
+    v = z3.BitVec("v", 32)
+    paths = ex.run("__Str$fromInt", [irsym.I31(BV(0)), Int(v)])
+    details["fromInt_paths"] = len(paths)
+    from_int_paths = []
+    for pth in paths:
+        obligations += 1
+        if pth.outcome != "return":
+            r, m = solve(pth.pc)
+            if r == "sat":
+                vv = m.eval(v, model_completion=True).as_signed_long()
+                res.violation("Str.fromInt(%d) does not return under WebAssembly (%s: %s); TypeScript returns \"%d\"" % (vv, pth.outcome, pth.why, vv),
+                              {"property": "C04", "function": "__Str$fromInt", "v": vv, "outcome": pth.outcome, "why": pth.why})
+            elif r == "unsat":
+                discharged += 1
+            else:
+                res.inconc("fromInt: solver unknown on a %s path" % pth.outcome)
+            continue
+        arr = pth.value
+        elems = ex.arr_parts(arr, _FakeState(pth))[0] if not isinstance(arr, wat.Arr) or arr.elems is None else arr.elems
+        if elems is None:
+            res.inconc("fromInt: result array has a symbolic length on some path")
+            continue
+        elems = _final_elems(ex, arr, pth)
+        from_int_paths.append((pth, elems))
+        k = len(elems)
+        neg = v < 0
+        mag = z3.If(neg, -v, v)          # unsigned magnitude (INT_MIN keeps its bit pattern 2^31)
+        # decimal digits by repeated division (least significant first): q0 = |v|, q(j+1) = q(j) / 10, d(j) = q(j) % 10
+        qs = [mag]
+        for _ in range(11):
+            qs.append(z3.UDiv(qs[-1], BV(10)))
+        wrong = []
+        for is_neg in (False, True):
+            digits = k - 1 if is_neg else k
+            here = neg == z3.BoolVal(is_neg)
+            if digits <= 0:
+                wrong.append(here)
+                continue
+            bad = []
+            if is_neg:
+                bad.append(elems[0].t != BV(45))
+            for j in range(digits):                       # j-th digit from the right
+                pos = k - 1 - j
+                bad.append(elems[pos].t != z3.URem(qs[j], BV(10)) + BV(48))
+            # canonical: exactly `digits` digits (no leading zero; a lone "0" for zero)
+            bad.append(qs[digits] != BV(0))
+            if digits > 1:
+                bad.append(qs[digits - 1] == BV(0))
+            wrong.append(z3.And(here, z3.Or(*bad)))
+        # one query per sign (halves the arithmetic each query has to carry)
+        verdicts = []
+        for w_ in wrong:
+            t1 = time.time()
+            r, m = solve(pth.pc + [w_], 200 if tier == "quick" else 1200)
+            verdicts.append((r, m))
+            details.setdefault("fromInt_query_s", []).append(round(time.time() - t1, 1))
+        if all(r == "unsat" for r, _ in verdicts):
+            discharged += 1
+        elif any(r == "sat" for r, _ in verdicts):
+            m = [m for r, m in verdicts if r == "sat"][0]
+            vv = m.eval(v, model_completion=True).as_signed_long()
+            got = "".join(chr(m.eval(e.t, model_completion=True).as_long() & 0xFF) for e in elems)
+            res.violation("Str.fromInt(%d) is %r under WebAssembly and %r under TypeScript" % (vv, got, str(vv)),
+                          {"property": "C04", "function": "__Str$fromInt", "v": vv, "wasm": got, "ts": str(vv)})
+        else:
+            res.inconc("fromInt: solver unknown on a value path (%d characters)" % k)
+    # ---- round trip: Str.toInt(Str.fromInt(v)) == v   (TS: parseInt(String(v), 10) === v)
+    RT_MAX = 6 if tier == "quick" else 7
+    details["round_trip_bound"] = "strings of <= %d characters (|v| < 10^%d); longer ones only on the concrete boundary values below" % (RT_MAX, RT_MAX - 1)
+    for pth, elems in from_int_paths:
+        if len(elems) > RT_MAX:
+            continue
+        obligations += 1
+        ex2 = wat.WExec(mod, world, bounds)
+        ex2.deadline = time.time() + bounds["seconds"]
+        sarr = wat.Arr("_Str", list(elems))
+        ps2 = ex2.run("__Str$toInt", [sarr], pth.pc, None)
+        bad = False
+        for p2 in ps2:
+            if p2.outcome == "bound":
+                res.inconc("toInt: bound reached on the round trip")
+                bad = True
+                continue
+            cond = p2.pc + ([p2.value.t != v] if p2.outcome == "return" else [])
+            r, m = solve(cond, 120 if tier == "quick" else 900)
+            if r == "sat":
+                vv = m.eval(v, model_completion=True).as_signed_long()
+                res.violation("Str.toInt(Str.fromInt(%d)) %s under WebAssembly; TypeScript yields %d" % (vv, "is %s" % m.eval(p2.value.t, model_completion=True).as_signed_long() if p2.outcome == "return" else "traps", vv),
+                              {"property": "C04", "function": "__Str$toInt", "v": vv, "outcome": p2.outcome})
+                bad = True
+            elif r == "unknown":
+                res.inconc("toInt: solver unknown on the round trip")
+                bad = True
+        if not bad:
+            discharged += 1
+    # concrete boundary values through the same interpreter (not solver-quantified; listed as such)
+    conc = []
+    for cv in (0, 1, -1, 9, 10, -10, 99, 100, 12345678, -12345678, 999999999, 1000000000, -1000000000, 2147483647, -2147483647, -2147483648):
+        exc = wat.WExec(mod, World(), bounds)
+        ps = exc.run("__Str$fromInt", [irsym.I31(BV(0)), Int(BV(cv))])
+        ok = len(ps) == 1 and ps[0].outcome == "return"
+        text = None
+        back = None
+        if ok:
+            el = _final_elems(exc, ps[0].value, ps[0])
+            text = "".join(chr(z3.simplify(e.t).as_long() & 0xFF) for e in el)
+            ps2 = wat.WExec(mod, World(), bounds).run("__Str$toInt", [wat.Arr("_Str", list(el))])
+            if len(ps2) == 1 and ps2[0].outcome == "return":
+                back = z3.simplify(ps2[0].value.t).as_signed_long()
+        conc.append({"v": cv, "fromInt": text, "toInt_back": back})
+        if text != str(cv) or back != cv:
+            res.violation("Str.fromInt(%d) / toInt round trip under WebAssembly gives %r / %r" % (cv, text, back),
+                          {"property": "C04", "function": "__Str$fromInt/__Str$toInt", "v": cv, "wasm_text": text, "wasm_back": back})
+    details["concrete_boundary_values"] = conc
+    # ---- Str.concat(a, b) == a + b  and  Str.eq, for all contents and all lengths <= 3
+    for fname in ("__Str$concat", "__Str$eq"):
+        world2 = World()
+        ex3 = wat.WExec(mod, world2, bounds)
+        ex3.deadline = time.time() + bounds["seconds"]
+        a, b = irsym.Sym("sa", "_Str"), irsym.Sym("sb", "_Str")
+        la, lb = z3.BitVec("len!sa", 32), z3.BitVec("len!sb", 32)
+        # two distinct string objects (for one object both back ends trivially agree)
+        pre = [z3.ULE(la, BV(3)), z3.ULE(lb, BV(3)), z3.Not(world2.fact("refeq!S:sa!S:sb"))]
+        aa = z3.Array("arr!sa", z3.BitVecSort(32), z3.BitVecSort(32))
+        ab = z3.Array("arr!sb", z3.BitVecSort(32), z3.BitVecSort(32))
+        # contents are bytes (i8 arrays): sign-extended on read
+        byte = lambda arr, i: z3.SignExt(24, z3.Extract(7, 0, z3.Select(arr, i)))
+        ps3 = ex3.run(fname, [a, b], pre, None)
+        details[fname + "_paths"] = len(ps3)
+        for p3 in ps3:
+            obligations += 1
+            if p3.outcome != "return":
+                r, m = solve(p3.pc)
+                if r == "unsat":
+                    discharged += 1
+                elif r == "sat":
+                    res.violation("%s does not return (%s: %s) for some strings of length <= 3" % (fname, p3.outcome, p3.why),
+                                  {"property": "C04", "function": fname, "outcome": p3.outcome, "why": p3.why})
+                else:
+                    res.inconc("%s: solver unknown" % fname)
+                continue
+            if fname == "__Str$concat":
+                heap = getattr(p3, "heap", {})
+                parts = heap.get(("a", id(p3.value))) or (p3.value.elems, p3.value.zarr, p3.value.zlen)
+                elems, zarr, zlen = parts
+                if elems is not None:
+                    k = len(elems)
+                    rlen = BV(k)
+                    get = lambda i: elems[i].t if i < k else BV(0)
+                else:
+                    rlen = zlen
+                    get = lambda i: z3.Select(zarr, BV(i))
+                wrong = [la + lb != rlen]
+                for i in range(6):
+                    exp = z3.If(z3.ULT(BV(i), la), byte(aa, BV(i)), byte(ab, BV(i) - la))
+                    got = z3.SignExt(24, z3.Extract(7, 0, get(i)))
+                    wrong.append(z3.And(z3.ULT(BV(i), la + lb), got != exp))
+                r, m = solve(p3.pc + [z3.Or(*wrong)])
+            else:
+                same = z3.And(la == lb, *[z3.Implies(z3.ULT(BV(i), la), byte(aa, BV(i)) == byte(ab, BV(i))) for i in range(3)])
+                r, m = solve(p3.pc + [(p3.value.t != BV(0)) != same])
+            if r == "unsat":
+                discharged += 1
+            elif r == "sat":
+                res.violation("%s disagrees with the TypeScript semantics on strings of length %s/%s" % (fname, m.eval(la), m.eval(lb)),
+                              {"property": "C04", "function": fname, "len_a": str(m.eval(la)), "len_b": str(m.eval(lb))})
+            else:
+                res.inconc("%s: solver unknown" % fname)
+    details["runtime_wall_s"] = round(time.time() - t0, 1)
+    return {"runtime_obligations": obligations, "runtime_discharged": discharged, "runtime": details,
+            "runtime_functions": ["__Str$fromInt", "__Str$toInt", "__Str$concat", "__Str$eq"]}
+
+
+class _FakeState:
+    def __init__(self, pth):
+        self.heap = getattr(pth, "heap", {})
+        self.pc = list(pth.pc)
+        self.trace = []
+        self.model = None
+
+
+def _final_elems(ex, arr, pth):
+    """contents of an array object at the end of a path (the path keeps the final heap)"""
+    heap = getattr(pth, "heap", None) or {}
+    k = ("a", id(arr))
+    if k in heap:
+        return heap[k][0]
+    from vlib import wat
+    if isinstance(arr, wat.Arr):
+        return arr.elems
+    return None
